@@ -16,9 +16,11 @@ TRUSTED_COMMON = [
 
 def observe_stream(kind, s, cuts_list):
 	runs = []
-	for cuts in cuts_list:
+	for n, cuts in enumerate(cuts_list):
 		frags = streams.cuts_to_frags(s, cuts)
-		o = parser_rec.run(kind, frags)
+		# the type of the argument of parse() is rotated over the runs of a case: bytes, a fresh bytearray, and one receive buffer that the
+		# caller reuses and overwrites after every call (the machine must have copied what it keeps); the expected outcome is the same
+		o = parser_rec.run(kind, frags, feed=('bytes', 'reused', 'bytearray')[n % 3] if len(cuts_list) > 1 else 'bytes')
 		o['cuts'] = list(cuts)
 		runs.append(o)
 	return {'runs': runs}
